@@ -17,6 +17,12 @@ ENV = dict(os.environ, GOFLAGS="-mod=mod", GOPROXY="off", GOSUMDB="off", GOTOOLC
 BIN = os.environ.get("SWEEP_BIN", os.path.join(VERIF, "bin"))
 
 def one(m, repo, tests):
+    try:
+        return one_(m, repo, tests)
+    except Exception as e:
+        return dict(m, status="harness-error", error=str(e)[:200])
+
+def one_(m, repo, tests):
     d = tempfile.mkdtemp(prefix="rpcverif-sweep-")
     try:
         for f in os.listdir(repo):
@@ -48,7 +54,7 @@ def one(m, repo, tests):
         res = dict(m, status="compiled", fired=fired)
         if tests:
             try:
-                t = subprocess.run("unshare -rn sh -c 'ip link set lo up; go test -vet=off -count=1 -timeout 120s . 2>&1 | tail -30'", shell=True, cwd=d, env=ENV, capture_output=True, text=True, timeout=200)
+                t = subprocess.run("unshare -rn sh -c 'ip link set lo up; go test -vet=off -count=1 -timeout 120s . 2>&1 | tail -30'", shell=True, cwd=d, env=ENV, capture_output=True, text=True, errors="replace", timeout=200)
                 ok = "\nok  \t" in ("\n" + t.stdout) or t.stdout.startswith("ok  \t")
                 res["tests"] = "pass" if ok else "fail"
             except subprocess.TimeoutExpired:
